@@ -757,3 +757,104 @@ func releaseHelper(p *Prog, fn *ssa.Function, depth int) bool {
 	}
 	return ok && n > 0
 }
+
+// ---------- M3 ----------
+
+func init() {
+	register("M3", "callbacks run under the iteration lock: a function that walks a mutable collection's storage (hashtable order list, List.elems) and calls a function value it was given (a push iterator's yield, a visitor) increments the collection's itercount first, so the callee cannot mutate the collection under the walk", 2, ruleM3)
+	claim("C06", "M3")
+}
+
+func ruleM3(c *Ctx) {
+	n := 0
+	for _, fn := range c.P.Funcs {
+		if !isProdPkg(fnPkgPath(fn)) || fn.Blocks == nil {
+			continue
+		}
+		// (1) a call of a function value that is a parameter or a captured variable
+		var cb ssa.Instruction
+		eachInstr(fn, func(in ssa.Instruction) {
+			ci, ok := in.(ssa.CallInstruction)
+			if !ok || ci.Common().IsInvoke() || ci.Common().StaticCallee() != nil {
+				return
+			}
+			if _, isBuiltin := ci.Common().Value.(*ssa.Builtin); isBuiltin {
+				return
+			}
+			v := ci.Common().Value
+			if u, ok := v.(*ssa.UnOp); ok {
+				v = u.X
+			}
+			switch v.(type) {
+			case *ssa.Parameter, *ssa.FreeVar:
+				if cb == nil {
+					cb = in
+				}
+			}
+		})
+		if cb == nil {
+			continue
+		}
+		// (2) walks guarded storage: loads of hashtable.head / entry.next, or List.elems
+		walked := ""
+		eachInstr(fn, func(in ssa.Instruction) {
+			u, ok := in.(*ssa.UnOp)
+			if !ok || u.Op != token.MUL {
+				return
+			}
+			fa, ok := u.X.(*ssa.FieldAddr)
+			if !ok {
+				return
+			}
+			o, f := ownerField(fa)
+			switch {
+			case o == "starlark.hashtable" && f == "head", o == "starlark.entry" && f == "next":
+				walked = "starlark.hashtable"
+			case o == "starlark.List" && f == "elems":
+				walked = "starlark.List"
+			}
+		})
+		if walked == "" {
+			continue
+		}
+		n++
+		key := fnName(fn) + ": callback while walking " + walked
+		pos := c.P.Pos(cb.Pos())
+		// (3) itercount of that collection type is incremented in this function
+		locked := false
+		eachInstr(fn, func(in ssa.Instruction) {
+			st, ok := in.(*ssa.Store)
+			if !ok {
+				return
+			}
+			if fa, ok := st.Addr.(*ssa.FieldAddr); ok {
+				if o, f := ownerField(fa); o == walked && f == "itercount" {
+					if b, ok := st.Val.(*ssa.BinOp); ok && b.Op == token.ADD {
+						if instrDominates(st, cb) {
+							locked = true
+						}
+						// `if !x.frozen { x.itercount++; defer ... }` before the walk: a frozen collection needs no lock
+						for _, pc := range pathConds(st.Block()) {
+							cond, _ := stripNot(pc.If.Cond)
+							if ld, ok := cond.(*ssa.UnOp); ok {
+								if ffa, ok := ld.X.(*ssa.FieldAddr); ok {
+									if o2, f2 := ownerField(ffa); o2 == walked && f2 == "frozen" && instrDominates(pc.If, cb) {
+										locked = true
+									}
+								}
+							}
+						}
+					}
+				}
+			}
+		})
+		if locked {
+			c.ok(key, pos, "itercount is incremented before the first callback")
+		} else {
+			c.viol(key, pos, "the function calls back into caller-supplied code for each element without holding the collection's iteration lock: the callback can insert into, delete from or clear the collection that is being walked, and the mutation succeeds")
+		}
+	}
+	if n < 2 {
+		c.anchorFail("only %d callback-driven walks found", n)
+	}
+}
